@@ -243,6 +243,12 @@ impl Database {
         self.set_value(&conflict_register_change);
         // Replicate conflict keys to other replicas
         replicate_change(&conflict_register_change, &self, &dbs);
+        self.apply_resolution(change)
+    }
+
+    /// Writes the resolved value of the key: the part of `resolve_conflit` a secondary runs for a
+    /// resolve replicated by the primary (the conflict registry key is replicated on its own).
+    pub fn apply_resolution(&self, change: Change) -> Response {
         if self.has_pendding_conflict(&change.key) {
             let pendding_conflict = self.list_conflicts_keys(&change.key);
             let values = pendding_conflict
